@@ -22,6 +22,7 @@ statement for all of them:
 import ast
 
 from sa import core
+from sa import facts as repo_facts
 from sa import formula
 from sa import pycfg
 from sa import tpl
@@ -328,13 +329,9 @@ def check(model, rep, tier):
             facts, line=to_ast.node.lineno,
             witness='feature sets of size 0, 1, 2 or 3')
   # exports
-  gel = model.func(API, 'PyToPy.get_extra_locals')
-  exported = {}
-  for n in ast.walk(gel.node):
-    if isinstance(n, ast.Assign) and isinstance(n.targets[0], ast.Attribute) and \
-        isinstance(n.targets[0].value, ast.Name) and \
-        n.targets[0].value.id == 'ag_internal':
-      exported[n.targets[0].attr] = core.dotted(n.value)
+  xl = repo_facts.extra_locals(model)
+  gel = xl['func']
+  exported = xl['explicit']
   for nm, want in (('ConversionOptions', 'converter.ConversionOptions'),
                    ('Feature', 'converter.Feature'),
                    ('STD', 'converter.STANDARD_OPTIONS')):
@@ -479,7 +476,11 @@ def check(model, rep, tier):
     v = st.kwargs.get('options')
     if v is not None:
       n_embed += 1
-      rep.check(core.norm(v) == 'self._function_scope_options(fn_scope).to_ast()',
+      okv = isinstance(v, ast.Call) and isinstance(v.func, ast.Attribute) and \
+          v.func.attr == 'to_ast' and isinstance(v.func.value, ast.Call) and \
+          core.norm(v.func.value.func) == 'self._function_scope_options' and \
+          len(v.func.value.args) == 1
+      rep.check(okv,
                 'OPT-CALLEE', '%s:options-embedded' % st.fi.site,
                 'the function scope template must embed '
                 '_function_scope_options(fn_scope).to_ast()',
